@@ -63,3 +63,9 @@ func (r *R) Perm(n int) []int {
 	}
 	return p
 }
+
+// Pick9 returns a length that straddles a decimal digit-count boundary.
+func (r *R) Pick9() int {
+	xs := []int{9, 10, 11, 99, 100, 101, 999, 1000, 1001}
+	return xs[r.Intn(len(xs))]
+}
